@@ -27,7 +27,9 @@ func NewStringLiteralReader(input []byte, pos *Position, quote rune) *StringLite
 
 // ReadStringLiteral reads a string literal with proper escape sequence handling
 func (r *StringLiteralReader) ReadStringLiteral() (models.Token, error) {
-	// Normalize the quote character
+	// Normalize the quote character. Typographic quotes delimit only what a
+	// typographic quote opened; inside '...' they are ordinary content
+	typographic := r.quote != normalizeQuote(r.quote)
 	r.quote = normalizeQuote(r.quote)
 	var buf bytes.Buffer
 	startPos := r.pos.Clone()
@@ -38,7 +40,6 @@ func (r *StringLiteralReader) ReadStringLiteral() (models.Token, error) {
 
 	for r.pos.Index < len(r.input) {
 		ch, size := utf8.DecodeRune(r.input[r.pos.Index:])
-		ch = normalizeQuote(ch)
 
 		if ch == '\\' {
 			// Handle escape sequences
@@ -59,14 +60,13 @@ func (r *StringLiteralReader) ReadStringLiteral() (models.Token, error) {
 			)
 		}
 
-		if ch == r.quote {
+		if ch == r.quote || (typographic && normalizeQuote(ch) == r.quote) {
 			// Check for double quotes (escaped quotes)
 			if r.pos.Index+size < len(r.input) {
 				nextR, nextSize := utf8.DecodeRune(r.input[r.pos.Index+size:])
-				nextR = normalizeQuote(nextR)
-				if nextR == r.quote {
+				if nextR == r.quote || (typographic && normalizeQuote(nextR) == r.quote) {
 					// Include one quote and skip the other
-					buf.WriteRune(ch)
+					buf.WriteRune(r.quote)
 					r.pos.Index += size + nextSize
 					r.pos.Column += 2
 					continue
